@@ -175,6 +175,7 @@ def callee_key(callee):
     else:
         key = strip_generics(c)
     key = re.sub(r"<'_>|<'\w+>", "", key)
+    key = re.sub(r"<impl \[[^\]]*\]>", "<impl [T]>", key)      # inherent slice methods: element type irrelevant
     return key, selfty, gen
 
 
